@@ -309,6 +309,10 @@ class FluidPropertyInterExtra(FluidProperty):
     def to_dict(self):
         d = super(FluidPropertyInterExtra, self).to_dict()
         d.update({k: self.prop_getter.__dict__[k] for k in self.prop_getter_entries.keys()})
+        if not isinstance(d["_fill_value_orig"], str):
+            # interpolation without extrapolation: interp1d keeps a 0-d NaN array, which is not JSON
+            # serializable; None stands for the interp1d default
+            d["_fill_value_orig"] = None
         # d.update({"x_values": self.prop_getter.x, "y_values": self.prop_getter.y,
         #           "method": "interpolate_extrapolate"
         #           if self.prop_getter.fill_value == "extrapolate" else None})
@@ -320,6 +324,8 @@ class FluidPropertyInterExtra(FluidProperty):
         d2 = {cls.prop_getter_entries[k]: v for k, v in d.items()
               if k in cls.prop_getter_entries.keys()}
         d3 = {k: v for k, v in d.items() if k not in cls.prop_getter_entries.keys()}
+        if d2.get("fill_value", "") is None:
+            del d2["fill_value"]
         d3["prop_getter"] = interp1d(**d2)
         obj.__dict__.update(d3)
         return obj
